@@ -33,7 +33,8 @@ def sym_dist(ctx, p):
     S = [[None] * p for _ in range(p)]
     for i in range(p):
         for j in range(i, p):
-            S[i][j] = S[j][i] = mk('s_%d_%d' % (i, j))
+            # cube flag 'diag': concrete zero covariances (used by C06's p = 4 unsorted-list cubes)
+            S[i][j] = S[j][i] = (0 if (ctx.params.get('diag') and i != j) else mk('s_%d_%d' % (i, j)))
     dist = nd.NormalDistribution(np.array(mu), np.array(S))
     return nd, dist, mu, S
 
